@@ -13,7 +13,7 @@ simplified arguments. (If a rule ever needs more of the original node, extend `R
 deliberately, here.)
 
 `RuleOK op e` is the *local* correctness of the table entry `e` for operator `op`. It has
-three components (type, sound, fv), each under the hypotheses
+four components (type, sound, total, fv), each under the hypotheses
 
 * `hwf  : (Term.node op args p).wf = true`     — the node built from the simplified
   arguments is well-formed (in particular every argument is, hereditarily);
@@ -30,6 +30,11 @@ Type soundness of the reference semantics is available globally
 (`PySMT.eval_hasSort`, Proofs/SimpSorts.lean) and is not part of the interface.
 -/
 namespace PySMT.Simp
+
+/-- the division-by-zero functions map 0 to 0. Under such an interpretation *every* rule is sound
+without the proviso: the only rule that is not sound under the total SMT-LIB reading `x / 0 = f(x)`
+for arbitrary `f` is `0 / x ↦ 0` (`walk_div`), which needs exactly `f(0) = 0`. -/
+def _root_.PySMT.Interp.Tot (I : Interp) : Prop := I.div0r 0 = 0 ∧ I.div0i 0 = 0
 
 /-- a rule: payload of the original node → simplified arguments → result -/
 abbrev Rule := Payload → List Term → Term
@@ -59,6 +64,13 @@ structure RuleOK (op : Op) (e : Entry) : Prop where
     e.guard p (args.map Term.typeOf) = true →
     ∀ I : Interp, I.WF → div0 I (.node op args p) = false →
       eval I (e.rule p args) = eval I (.node op args p) ∧ div0 I (e.rule p args) = false
+  /-- without the proviso: under every well-formed interpretation whose division-by-zero functions
+  map 0 to 0 the result has the value of the node (divisions by zero, also in branches that are not
+  taken, are allowed) -/
+  total : ∀ (p : Payload) (args : List Term) (τ : Ty),
+    (Term.node op args p).wf = true → (Term.node op args p).typeOf = some τ →
+    e.guard p (args.map Term.typeOf) = true →
+    ∀ I : Interp, I.WF → I.Tot → eval I (e.rule p args) = eval I (.node op args p)
   /-- the result mentions only symbols that are free in the node -/
   fv : ∀ (p : Payload) (args : List Term) (τ : Ty),
     (Term.node op args p).wf = true → (Term.node op args p).typeOf = some τ →
@@ -69,6 +81,7 @@ structure RuleOK (op : Op) (e : Entry) : Prop where
 theorem keep_ok (op : Op) : RuleOK op (keep op) where
   type := fun _ _ _ hwf hty _ => ⟨hty, hwf⟩
   sound := fun _ _ _ _ _ _ _ _ hd => ⟨rfl, hd⟩
+  total := fun _ _ _ _ _ _ _ _ _ => rfl
   fv := fun _ _ _ _ _ _ _ hs => hs
 
 end PySMT.Simp
